@@ -118,12 +118,49 @@ def _patch_execute():
     _EXEC_PATCHED = True
 
 
+_RESP_PATCHED = False
+
+
+def _patch_response():
+    """Observe ProtocolResponse.read (the one place where decoders take bytes out of an accepted answer): a SHORT event
+    whenever fewer bytes are there than the decoder asked for (pos = byte offset in the payload, first = first register
+    of the request when the command knows it).  Pure observation; a library without this method yields no events."""
+    global _RESP_PATCHED
+    if _RESP_PATCHED:
+        return
+    _RESP_PATCHED = True
+    try:
+        from goodwe.protocol import ProtocolResponse
+        orig = ProtocolResponse.read
+    except (ImportError, AttributeError):
+        return
+
+    def read(self, size=-1):
+        try:
+            pos = self._bytes.tell()
+        except Exception:  # noqa
+            pos = -1
+        got = orig(self, size)
+        try:
+            if isinstance(size, int) and size > 0 and len(got) < size:
+                rec = getattr(asyncio.get_event_loop(), "rec", None)
+                first = getattr(getattr(self, "command", None), "first_address", None)
+                if rec:
+                    rec("SHORT", pos=pos, want=size, got=len(got), first=first if isinstance(first, int) else -1)
+        except Exception:  # noqa
+            pass
+        return got
+
+    ProtocolResponse.read = read
+
+
 class World:
     """One virtual loop, several simulated inverters addressed by host name."""
 
     def __init__(self, prog: dict, strict: bool = True):
         self.prog = prog
         _patch_execute()
+        _patch_response()
         self.loop = VLoop(strict=strict, horizon=prog.get("horizon", 400000))
         asyncio.set_event_loop(self.loop)
         self.events = self.loop.events
